@@ -283,6 +283,10 @@ def handle (op : String) (args : List String) : String :=
       | some r => showRecord r
     | _, _, _ => "bad-op"
   | "deck.kw", _ => handleKw args
+  | "deck.codekws", _ =>
+    -- the translator's view of the code keywords (share/keywords/*), sorted by name
+    let l := OpmVerif.Gen.RawConsts.codeKeywords.map fun kw => hx kw.1 ++ ":" ++ hx kw.2
+    ",".intercalate (l.toArray.qsort (· < ·)).toList
   | "deck.write", [split, rec] => match readRecord rec with
     | some r => hx (writeRecord idFmt OpmVerif.Gen.RawConsts.outFlushPendingDefaults (split == "1") r)
     | none => "bad-op"
